@@ -70,11 +70,11 @@ inductive Phase where
   | header | len | mask | payload
 deriving Repr, DecidableEq
 
-/-- parser + data-queue state (everything except `_tail` and `_exc`, see `Reader`) -/
-structure P (Z : Inflater) where
+/-- parser + data-queue state that does not depend on how the input was cut (everything except
+`_tail`, `_exc` — see `Reader` — and the two segmentation-dependent items of `P`) -/
+structure K (Z : Inflater) where
   phase : Phase := .header
   frags : Bytes := []            -- b"".join(_payload_fragments)
-  fragCount : Nat := 0           -- len(_payload_fragments)
   toRead : Nat := 0              -- _payload_bytes_to_read
   partialMsg : Bytes := []       -- _partial
   opcode : Option Nat := none    -- _opcode (None = OP_CODE_NOT_SET)
@@ -88,6 +88,11 @@ structure P (Z : Inflater) where
   msgs : List Msg := []          -- every message put on the queue so far, in order
   nread : Nat := 0               -- how many of them were consumed by `read`
   qsize : Nat := 0               -- WebSocketDataQueue._size
+
+/-- full state: `K` plus the fragment count and the flow-control flag -/
+structure P (Z : Inflater) where
+  k : K Z := {}
+  fragCount : Nat := 0           -- len(_payload_fragments)
   paused : Bool := false         -- protocol._reading_paused
 
 /-! ## helpers -/
@@ -173,11 +178,9 @@ def maxFragments (c : Cfg) : Nat :=
 
 variable {Z : Inflater}
 
-/-- `WebSocketDataQueue.feed_data(msg)` -/
-def deliver (c : Cfg) (p : P Z) (m : Msg) : P Z :=
-  let size := p.qsize + m.size
-  { p with msgs := p.msgs ++ [m], qsize := size,
-           paused := if size > c.queueLimit ∧ ¬ p.paused then true else p.paused }
+/-- `WebSocketDataQueue.feed_data(msg)` without its `pause_reading()` (that part is in `micro`) -/
+def deliver (p : K Z) (m : Msg) : K Z :=
+  { p with msgs := p.msgs ++ [m], qsize := p.qsize + m.size }
 
 inductive ReadRes where
   | msg (m : Msg)
@@ -190,8 +193,8 @@ deriving Repr, DecidableEq
 def closeCodeOk (code : Nat) : Bool :=
   !(code > 4999 || (code < 3000 && !Gen.C12.allowedCloseCodes.contains code))
 
-def handleData (c : Cfg) (p : P Z) (fin : Bool) (opcode : Nat) (payload : Bytes)
-    (compressed : Option Bool) : Except (P Z × Err) (P Z) :=
+def handleData (c : Cfg) (p : K Z) (fin : Bool) (opcode : Nat) (payload : Bytes)
+    (compressed : Option Bool) : Except (K Z × Err) (K Z) :=
   if opcode = 0 ∧ p.opcode = none then .error (p, E1002)
   else if ¬ fin then
     .ok { p with opcode := if opcode ≠ 0 then some opcode else p.opcode,
@@ -200,11 +203,11 @@ def handleData (c : Cfg) (p : P Z) (fin : Bool) (opcode : Nat) (payload : Bytes)
     let hasPartial := p.partialMsg ≠ []
     if opcode ≠ 0 ∧ hasPartial then .error (p, E1002) else
     let opc := if opcode = 0 then p.opcode.getD 0 else opcode
-    let p1 : P Z := if opcode = 0 then { p with opcode := none } else p
+    let p1 : K Z := if opcode = 0 then { p with opcode := none } else p
     let assembled := p1.partialMsg ++ payload
-    let p2 : P Z := { p1 with partialMsg := [] }
+    let p2 : K Z := { p1 with partialMsg := [] }
     -- `if compressed:` (COMPRESSED_NOT_SET = -1 is truthy, but a data frame always sets it)
-    let inflated : Except (P Z × Err) (P Z × Bytes) :=
+    let inflated : Except (K Z × Err) (K Z × Bytes) :=
       if compressed ≠ some false then
         let maxLen := if c.maxMsgSize ≠ 0 then c.maxMsgSize + 1 else 0
         match Z.inflate p2.z (assembled ++ Gen.C12.deflateTrailing) maxLen with
@@ -219,71 +222,84 @@ def handleData (c : Cfg) (p : P Z) (fin : Bool) (opcode : Nat) (payload : Bytes)
     | .ok (p3, merged) =>
       if opc = 1 then
         if c.decodeText ∧ ¬ utf8Valid merged then .error (p3, E1007)
-        else .ok (deliver c p3 (.text merged))
-      else .ok (deliver c p3 (.binary merged))
+        else .ok (deliver p3 (.text merged))
+      else .ok (deliver p3 (.binary merged))
 
-def handleClose (c : Cfg) (p : P Z) (payload : Bytes) : Except (P Z × Err) (P Z) :=
+def handleClose (_c : Cfg) (p : K Z) (payload : Bytes) : Except (K Z × Err) (K Z) :=
   match payload with
   | b0 :: b1 :: reason =>
     let code := b0.toNat * 256 + b1.toNat
     if ¬ closeCodeOk code then .error (p, E1002)
     else if ¬ utf8Valid reason then .error (p, E1007)
-    else .ok (deliver c p (.close code reason))
+    else .ok (deliver p (.close code reason))
   | [_] => .error (p, E1002)
-  | [] => .ok (deliver c p (.close 0 []))
+  | [] => .ok (deliver p (.close 0 []))
 
 /-- `_handle_frame(fin, opcode, payload, compressed)` -/
-def handleFrame (c : Cfg) (p : P Z) (fin : Bool) (opcode : Nat) (payload : Bytes)
-    (compressed : Option Bool) : Except (P Z × Err) (P Z) :=
+def handleFrame (c : Cfg) (p : K Z) (fin : Bool) (opcode : Nat) (payload : Bytes)
+    (compressed : Option Bool) : Except (K Z × Err) (K Z) :=
   if opcode = 1 ∨ opcode = 2 ∨ opcode = 0 then handleData c p fin opcode payload compressed
   else if opcode = 8 then handleClose c p payload
-  else if opcode = 9 then .ok (deliver c p (.ping payload))
-  else if opcode = 10 then .ok (deliver c p (.pong payload))
+  else if opcode = 9 then .ok (deliver p (.ping payload))
+  else if opcode = 10 then .ok (deliver p (.pong payload))
   else .error (p, E1002)
 
 /-! ## `_feed_data` -/
 
-inductive Step (Z : Inflater) where
+/-- result of one state block on the segmentation-independent part of the state -/
+inductive StepK (Z : Inflater) where
   | need                          -- `break` with the unread bytes going to `_tail`
-  | park (p : P Z)                -- `break` after buffering an incomplete payload (all bytes consumed)
-  | fail (p : P Z) (e : Err)      -- exception (state as left behind; only z/msgs/queue fields matter afterwards)
-  | adv (p : P Z) (rest : Bytes)  -- state advanced; continue with `rest`
+  | park (k : K Z)                -- `break` after buffering an incomplete payload (all bytes consumed)
+  | fail (k : K Z) (e : Err)      -- exception (state as left behind; only z/msgs/queue fields matter afterwards)
+  | adv (k : K Z) (rest : Bytes)  -- state advanced; continue with `rest`
+
+/-- READ_HEADER on the two header bytes: the checks and the state update -/
+def hdrCore (c : Cfg) (p : K Z) (b0 b1 : UInt8) : Except Err (K Z) :=
+  let fin := b0.toNat / 128
+  let rsv1 := b0.toNat / 64 % 2
+  let rsv2 := b0.toNat / 32 % 2
+  let rsv3 := b0.toNat / 16 % 2
+  let op := b0.toNat % 16
+  if rsv2 = 1 ∨ rsv3 = 1 ∨ (rsv1 = 1 ∧ ¬ c.compress) then .error E1002
+  else if ¬ Gen.C12.knownOpcodes.contains op then .error E1002
+  else if op > 7 ∧ fin = 0 then .error E1002
+  else
+    let hasMask := b1.toNat / 128 = 1
+    let length := b1.toNat % 128
+    if op > 7 ∧ length > 125 then .error E1002
+    else if op > 7 then
+      if rsv1 = 1 then .error E1002
+      else .ok { p with frameOpcode := op, hasMask := hasMask, lenFlag := length, phase := .len }
+    else if p.frameFin ∨ p.compressed = none then
+      .ok { p with compressed := some (rsv1 = 1), frameFin := fin = 1, frameOpcode := op,
+                   hasMask := hasMask, lenFlag := length, phase := .len }
+    else if rsv1 = 1 then .error E1002
+    else
+      .ok { p with frameFin := fin = 1, frameOpcode := op,
+                   hasMask := hasMask, lenFlag := length, phase := .len }
 
 /-- READ_HEADER -/
-def hdrStep (c : Cfg) (p : P Z) (buf : Bytes) : Step Z :=
+def hdrStep (c : Cfg) (p : K Z) (buf : Bytes) : StepK Z :=
   match buf with
   | b0 :: b1 :: rest =>
-    let fin := b0.toNat / 128
-    let rsv1 := b0.toNat / 64 % 2
-    let rsv2 := b0.toNat / 32 % 2
-    let rsv3 := b0.toNat / 16 % 2
-    let op := b0.toNat % 16
-    if rsv2 = 1 ∨ rsv3 = 1 ∨ (rsv1 = 1 ∧ ¬ c.compress) then .fail p E1002
-    else if ¬ Gen.C12.knownOpcodes.contains op then .fail p E1002
-    else if op > 7 ∧ fin = 0 then .fail p E1002
-    else
-      let hasMask := b1.toNat / 128 = 1
-      let length := b1.toNat % 128
-      if op > 7 ∧ length > 125 then .fail p E1002
-      else if op > 7 then
-        if rsv1 = 1 then .fail p E1002
-        else .adv { p with frameOpcode := op, hasMask := hasMask, lenFlag := length, phase := .len } rest
-      else if p.frameFin ∨ p.compressed = none then
-        .adv { p with compressed := some (rsv1 = 1), frameFin := fin = 1, frameOpcode := op,
-                      hasMask := hasMask, lenFlag := length, phase := .len } rest
-      else if rsv1 = 1 then .fail p E1002
-      else
-        .adv { p with frameFin := fin = 1, frameOpcode := op,
-                      hasMask := hasMask, lenFlag := length, phase := .len } rest
+    match hdrCore c p b0 b1 with
+    | .error e => .fail p e
+    | .ok p' => .adv p' rest
   | _ => .need
 
 /-- the tail of READ_PAYLOAD_LENGTH: size cap, next state -/
-def setLen (c : Cfg) (p : P Z) (n : Nat) (rest : Bytes) : Step Z :=
-  if c.maxMsgSize ≠ 0 ∧ (p.frameOpcode = 1 ∨ p.frameOpcode = 2 ∨ p.frameOpcode = 0) ∧ n ≥ c.maxMsgSize - p.partialMsg.length then .fail p E1009
-  else .adv { p with toRead := n, phase := if p.hasMask then .mask else .payload } rest
+def lenCore (c : Cfg) (p : K Z) (n : Nat) : Except Err (K Z) :=
+  if c.maxMsgSize ≠ 0 ∧ (p.frameOpcode = 1 ∨ p.frameOpcode = 2 ∨ p.frameOpcode = 0) ∧
+      n ≥ c.maxMsgSize - p.partialMsg.length then .error E1009
+  else .ok { p with toRead := n, phase := if p.hasMask then .mask else .payload }
+
+def setLen (c : Cfg) (p : K Z) (n : Nat) (rest : Bytes) : StepK Z :=
+  match lenCore c p n with
+  | .error e => .fail p e
+  | .ok p' => .adv p' rest
 
 /-- READ_PAYLOAD_LENGTH -/
-def lenStep (c : Cfg) (p : P Z) (buf : Bytes) : Step Z :=
+def lenStep (c : Cfg) (p : K Z) (buf : Bytes) : StepK Z :=
   if p.lenFlag = 126 then
     match buf with
     | b0 :: b1 :: rest => setLen c p (b0.toNat * 256 + b1.toNat) rest
@@ -297,37 +313,59 @@ def lenStep (c : Cfg) (p : P Z) (buf : Bytes) : Step Z :=
   else setLen c p p.lenFlag buf
 
 /-- READ_PAYLOAD_MASK -/
-def maskStep (p : P Z) (buf : Bytes) : Step Z :=
+def maskStep (p : K Z) (buf : Bytes) : StepK Z :=
   if buf.length < 4 then .need
   else .adv { p with mask := buf.take 4, phase := .payload } (buf.drop 4)
 
 /-- READ_PAYLOAD -/
-def payStep (c : Cfg) (p : P Z) (buf : Bytes) : Step Z :=
+def payStep (c : Cfg) (p : K Z) (buf : Bytes) : StepK Z :=
   let n := min p.toRead buf.length
   let chunk := buf.take n
   let rest := buf.drop n
   let toRead := p.toRead - n
   if toRead ≠ 0 then
-    let cnt := p.fragCount + 1
-    .park { p with toRead := toRead, frags := p.frags ++ chunk, fragCount := cnt,
-                   paused := if maxFragments c ≠ 0 ∧ cnt > maxFragments c ∧ ¬ p.paused then true
-                             else p.paused }
+    .park { p with toRead := toRead, frags := p.frags ++ chunk }
   else
     let raw := p.frags ++ chunk
     let payload := if p.hasMask then maskBytes p.mask raw else raw
-    -- `had_fragments`: the list is joined and cleared only when earlier fragments were non-empty
-    let cnt := if p.frags.length ≠ 0 then 0 else p.fragCount
-    let p1 : P Z := { p with toRead := 0, frags := [], fragCount := cnt }
+    let p1 : K Z := { p with toRead := 0, frags := [] }
     match handleFrame c p1 p.frameFin p.frameOpcode payload p.compressed with
     | .error (pe, e) => .fail pe e
     | .ok p2 => .adv { p2 with phase := .header } rest
 
-def micro (c : Cfg) (p : P Z) (buf : Bytes) : Step Z :=
+/-- one `if self._state == …` block, on the segmentation-independent state -/
+def microK (c : Cfg) (p : K Z) (buf : Bytes) : StepK Z :=
   match p.phase with
   | .header => hdrStep c p buf
   | .len => lenStep c p buf
   | .mask => maskStep p buf
   | .payload => payStep c p buf
+
+inductive Step (Z : Inflater) where
+  | need
+  | park (p : P Z)
+  | fail (p : P Z) (e : Err)
+  | adv (p : P Z) (rest : Bytes)
+
+/-- the same block with the two segmentation-dependent items:
+* an incomplete payload chunk is appended to `_payload_fragments`; above `_max_fragments`
+  entries the transport is paused;
+* when a frame completes the list is cleared only if earlier fragments were non-empty
+  (`had_fragments = self._frame_payload_len`);
+* `WebSocketDataQueue.feed_data` pauses the transport when `_size > _limit`. -/
+def micro (c : Cfg) (p : P Z) (buf : Bytes) : Step Z :=
+  match microK c p.k buf with
+  | .need => Step.need
+  | .park k1 =>
+    let cnt := p.fragCount + 1
+    let pz : Bool := if maxFragments c ≠ 0 ∧ cnt > maxFragments c ∧ ¬ p.paused then true else p.paused
+    Step.park { k := k1, fragCount := cnt, paused := pz }
+  | .fail k1 e => Step.fail { p with k := k1 } e
+  | .adv k1 rest =>
+    let cnt := if p.k.phase = .payload ∧ p.k.frags.length ≠ 0 then 0 else p.fragCount
+    let pz : Bool := if k1.msgs.length ≠ p.k.msgs.length ∧ k1.qsize > c.queueLimit ∧ ¬ p.paused then true
+                     else p.paused
+    Step.adv { k := k1, fragCount := cnt, paused := pz } rest
 
 /-- `WebSocketReader` as seen through `feed_data`: parser/queue state, `_tail`, `_exc` -/
 structure Reader (Z : Inflater) where
@@ -345,7 +383,7 @@ def loop (c : Cfg) : Nat → P Z → Bytes → Reader Z
     | .fail pe e => { p := pe, tail := [], exc := some e }
     | .adv p' rest => loop c fuel p' rest
 
-/-- enough fuel for any buffer: every frame takes at most 4 micro steps and ≥ 2 bytes -/
+/-- enough fuel for any buffer: every frame takes at most 4 blocks and ≥ 2 bytes -/
 def fuelFor (buf : Bytes) : Nat := 4 * buf.length + 8
 
 /-- `WebSocketReader.feed_data(data)` -/
@@ -359,10 +397,10 @@ def feedAll (c : Cfg) (r : Reader Z) : List Bytes → Reader Z
 
 /-- `WebSocketDataQueue._read_from_buffer()` (the non-blocking part of `read()`) -/
 def read (c : Cfg) (r : Reader Z) : Reader Z × ReadRes :=
-  match r.p.msgs.drop r.p.nread with
+  match r.p.k.msgs.drop r.p.k.nread with
   | m :: _ =>
-    let size := r.p.qsize - m.size
-    ({ r with p := { r.p with nread := r.p.nread + 1, qsize := size,
+    let size := r.p.k.qsize - m.size
+    ({ r with p := { r.p with k := { r.p.k with nread := r.p.k.nread + 1, qsize := size },
                               paused := if size < c.queueLimit ∧ r.p.paused then false else r.p.paused } },
      .msg m)
   | [] =>
@@ -371,6 +409,6 @@ def read (c : Cfg) (r : Reader Z) : Reader Z × ReadRes :=
     | none => (r, .empty)
 
 /-- bytes the reader keeps between two `feed_data` calls for the message being received -/
-def retained (r : Reader Z) : Nat := r.tail.length + r.p.frags.length + r.p.partialMsg.length
+def retained (r : Reader Z) : Nat := r.tail.length + r.p.k.frags.length + r.p.k.partialMsg.length
 
 end Aio.C12
